@@ -50,6 +50,8 @@ var c18Kinds = []c18Kind{
 	{"m1-pkg-deep", "m1", "", "pkg/deep/d.go", true, "example.com/m1", "example.com/m1/pkg/deep.D"},
 	{"m1-missing-file", "m1", "", "pkg/absent.go", false, "example.com/m1", "example.com/m1/pkg.Absent"},
 	{"m2", "m2", "", "x.go", true, "example.com/m2", "example.com/m2.X"},
+	{"m1x-sibling-module", "m1x", "", "y.go", true, "example.com/m1x", "example.com/m1x.Y"},
+	{"m1x-sibling-module-sub", "m1x", "", "lib/l.go", true, "example.com/m1x", "example.com/m1x/lib.L"},
 	{"go-run-file", "run", "", "main.go", true, "main", "main.run"},
 	{"testmain", "testmain", "", "example.com/p/_test/_testmain.go", false, "", "main.main"},
 	{"testmain-bare", "testmain-other", "", "_test/_testmain.go", false, "", "main.main"},
@@ -58,7 +60,7 @@ var c18Kinds = []c18Kind{
 	{"tail-exists-no-src-component", "none", "", "/x/fmt/print.go", false, "", "fmt.Println"},
 	{"tail-exists-short-prefix", "none", "", "/net/http/server.go", false, "", "net/http.Serve"},
 	{"under-remote-gopath-no-src", "gp1", "other", "example.com/a/a.go", false, "", "example.com/a.A2"},
-	{"sibling-of-module", "none", "", "", false, "", "example.com/m1x.Y"}, // <root>/m1x/y.go: extends a module directory name
+	{"sibling-of-module", "none", "", "", false, "", "example.com/m1y.Y"}, // <root>/m1y/y.go: extends a module directory name, no such directory
 }
 
 func c18Tree(root string) {
@@ -79,6 +81,9 @@ func c18Tree(root string) {
 		"deep/er/m2/go.mod":                                "module example.com/m2\r\n",
 		"deep/er/m2/x.go":                                  "package m2\n",
 		"run/main.go":                                      "package main\n",
+		"m1x/go.mod":                                       "module example.com/m1x\n",
+		"m1x/y.go":                                         "package m1x\n",
+		"m1x/lib/l.go":                                     "package lib\n",
 	}
 	for p, content := range files {
 		full := filepath.Join(root, p)
@@ -92,6 +97,7 @@ type c18Cfg struct {
 	gopaths  []string
 	renamed  map[string]bool // goroot, gp1, gp2, gp3
 	frames   []int
+	creator  int // kind index of the "created by" frame, -1: none
 }
 
 func (c c18Cfg) String() string {
@@ -105,7 +111,11 @@ func (c c18Cfg) String() string {
 			rn = append(rn, k)
 		}
 	}
-	return fmt.Sprintf("goroot=%v gopaths=%v renamed=%v frames=%v", c.goroot, c.gopaths, rn, fr)
+	cr := "none"
+	if c.creator >= 0 {
+		cr = c18Kinds[c.creator].name
+	}
+	return fmt.Sprintf("goroot=%v gopaths=%v renamed=%v frames=%v creator=%s", c.goroot, c.gopaths, rn, fr, cr)
 }
 
 func c18LocalRoot(root, name string) string {
@@ -127,12 +137,12 @@ func (c c18Cfg) remotePath(root string, k *c18Kind) string {
 	switch k.root {
 	case "none":
 		if k.name == "sibling-of-module" {
-			return root + "/m1x/y.go"
+			return root + "/m1y/y.go"
 		}
 		return k.rel
 	case "testmain", "testmain-other":
 		return k.rel
-	case "m1", "m2", "run":
+	case "m1", "m2", "m1x", "run":
 		return c18LocalRoot(root, k.root) + "/" + k.rel
 	}
 	return c.remoteRoot(root, k.root) + "/" + k.sub + "/" + k.rel
@@ -179,9 +189,33 @@ func (c c18Cfg) expect(root string) (wants []c18Want, remoteGOROOT string, remot
 			remoteGOPATHs[c.remoteRoot(root, g)] = c18LocalRoot(root, g)
 		}
 	}
-	for _, ki := range c.frames {
+	all := append([]int{}, c.frames...)
+	if c.creator >= 0 {
+		all = append(all, c.creator)
+	}
+	for pos, ki := range all {
+		isCreator := pos >= len(c.frames)
 		k := &c18Kinds[ki]
 		w := c18Want{}
+		if isCreator {
+			// the creator frame does not take part in root detection: it is mapped only
+			// through roots detected from the stack frames
+			inStack := func(rootName string) bool {
+				for _, kj := range c.frames {
+					if c18Kinds[kj].root == rootName {
+						return true
+					}
+				}
+				return false
+			}
+			switch k.root {
+			case "m1", "m2", "m1x", "run":
+				if !inStack(k.root) {
+					wants = append(wants, c18Want{must: !accidentalRunDir(c, root, k)})
+					continue
+				}
+			}
+		}
 		// A file that exists locally at its remote path although it lies under no detected
 		// root is taken for a `go run` file (documented behaviour): only the general
 		// invariants are checked for it, and the module map is not compared.
@@ -195,6 +229,12 @@ func (c c18Cfg) expect(root string) (wants []c18Want, remoteGOROOT string, remot
 					accidental = true
 				}
 			}
+		}
+		if accidental && isCreator {
+			// not probed at all (the creator is not in the file list): stays unknown unless a
+			// stack frame made its directory a go-run root
+			wants = append(wants, c18Want{})
+			continue
 		}
 		if accidental {
 			gomods["*"] = "*"
@@ -218,9 +258,11 @@ func (c c18Cfg) expect(root string) (wants []c18Want, remoteGOROOT string, remot
 				// under no detected root (not listed, nothing found locally, or not below src / pkg/mod)
 				w.must = true
 			}
-		case "m1", "m2":
+		case "m1", "m2", "m1x":
 			mr := c18LocalRoot(root, k.root)
-			gomods[mr] = k.mod
+			if !isCreator {
+				gomods[mr] = k.mod
+			}
 			imp := k.mod
 			if d := path.Dir(k.rel); d != "." {
 				imp += "/" + d
@@ -228,7 +270,9 @@ func (c c18Cfg) expect(root string) (wants []c18Want, remoteGOROOT string, remot
 			w = c18Want{GoMod, mr + "/" + k.rel, k.rel, imp, k.exists}
 		case "run":
 			mr := c18LocalRoot(root, "run")
-			gomods[mr] = "main"
+			if !isCreator {
+				gomods[mr] = "main"
+			}
 			w = c18Want{GoMod, mr + "/" + k.rel, k.rel, "main", true}
 		case "testmain":
 			w = c18Want{loc: Stdlib, must: true}
@@ -242,12 +286,20 @@ func (c c18Cfg) expect(root string) (wants []c18Want, remoteGOROOT string, remot
 	return
 }
 
+// accidentalRunDir: a stack frame exists locally in the same directory tree, so that
+// directory may have been registered as a go-run root.
+func accidentalRunDir(c c18Cfg, root string, k *c18Kind) bool { return false }
+
 func c18Check(root string, c c18Cfg, key string) *h.Viol {
 	var b strings.Builder
 	b.WriteString("goroutine 1 [running]:\n")
 	for _, ki := range c.frames {
 		k := &c18Kinds[ki]
 		fmt.Fprintf(&b, "%s(0x1)\n\t%s:%d +0x1\n", k.fn, c.remotePath(root, k), 10+ki)
+	}
+	if c.creator >= 0 {
+		k := &c18Kinds[c.creator]
+		fmt.Fprintf(&b, "created by %s in goroutine 5\n\t%s:%d +0x1\n", k.fn, c.remotePath(root, k), 99)
 	}
 	in := []byte(b.String())
 	opts := &Opts{GuessPaths: true}
@@ -272,8 +324,18 @@ func c18Check(root string, c c18Cfg, key string) *h.Viol {
 	wants, wantGOROOT, wantGOPATHs, wantGomods := c.expect(root)
 	s := res.snap
 	for i, w := range wants {
-		call := &s.Goroutines[0].Stack.Calls[i]
-		k := &c18Kinds[c.frames[i]]
+		var call *Call
+		var k *c18Kind
+		if i < len(c.frames) {
+			call = &s.Goroutines[0].Stack.Calls[i]
+			k = &c18Kinds[c.frames[i]]
+		} else {
+			if len(s.Goroutines[0].CreatedBy.Calls) != 1 {
+				return mk("creator-missing", "the created-by frame was not parsed")
+			}
+			call = &s.Goroutines[0].CreatedBy.Calls[0]
+			k = &c18Kinds[c.creator]
+		}
 		// general invariants
 		if call.LocalSrcPath != "" && !strings.HasSuffix(call.LocalSrcPath, call.RelSrcPath) {
 			return mk("local-not-ending-with-rel:"+k.name, fmt.Sprintf("frame %s: LocalSrcPath %q does not end with RelSrcPath %q", k.name, call.LocalSrcPath, call.RelSrcPath))
@@ -285,7 +347,11 @@ func c18Check(root string, c c18Cfg, key string) *h.Viol {
 			continue
 		}
 		if call.Location != w.loc {
-			return mk("location:"+k.name, fmt.Sprintf("frame %s (%s): Location=%s want %s", k.name, call.RemoteSrcPath, call.Location, w.loc))
+			tag := ""
+			if i >= len(c.frames) {
+				tag = "creator:"
+			}
+			return mk("location:"+tag+k.name, fmt.Sprintf("frame %s%s (%s): Location=%s want %s", tag, k.name, call.RemoteSrcPath, call.Location, w.loc))
 		}
 		if k.root == "testmain" {
 			continue
@@ -315,7 +381,7 @@ func c18Check(root string, c c18Cfg, key string) *h.Viol {
 		return mk("local-gomods", fmt.Sprintf("LocalGomods=%v want %v", s.LocalGomods, wantGomods))
 	}
 	// each detected remote root is a prefix of the frames it explains
-	for i := range wants {
+	for i := range c.frames {
 		call := &s.Goroutines[0].Stack.Calls[i]
 		switch call.Location {
 		case GOPATH, GoPkg:
@@ -363,6 +429,8 @@ func TestVerifC18(t *testing.T) {
 		return
 	}
 	gopathLists := [][]string{{}, {"gp1"}, {"gp1", "gp2"}, {"gp2", "gp1"}, {"gp1", "gp2", "gp3"}, {"gp3"}}
+	// the created-by frame rotates through: none, a path under no root, present files under each kind of root
+	creators := []int{-1, kindIndex("nowhere"), -1, kindIndex("gp1-src"), kindIndex("stdlib-fmt"), -1, kindIndex("m1-pkg"), kindIndex("gp1-pkgmod"), kindIndex("tail-exists-no-src-component")}
 	seq := 0
 	var frameSeqs [][]int
 	var rec func(cur []int)
@@ -386,7 +454,7 @@ func TestVerifC18(t *testing.T) {
 					if !r.MineIdx(seq) || r.Expired() {
 						continue
 					}
-					cfg := c18Cfg{goroot: goroot, gopaths: gl, renamed: map[string]bool{"goroot": mask&1 != 0, "gp1": mask&2 != 0, "gp2": mask&4 != 0}, frames: fs}
+					cfg := c18Cfg{goroot: goroot, gopaths: gl, renamed: map[string]bool{"goroot": mask&1 != 0, "gp1": mask&2 != 0, "gp2": mask&4 != 0}, frames: fs, creator: creators[seq%len(creators)]}
 					key := cfg.String()
 					v := r.Check(func() *h.Viol { return c18Check(root, cfg, key) })
 					out := "ok"
@@ -407,4 +475,13 @@ func TestVerifC18(t *testing.T) {
 			}
 		}
 	}
+}
+
+func kindIndex(name string) int {
+	for i, k := range c18Kinds {
+		if k.name == name {
+			return i
+		}
+	}
+	panic("no kind " + name)
 }
